@@ -61,7 +61,8 @@ OtherClass ==
      dep5_syntax |-> "invalid", dep5_not_utf8 |-> "invalid", dep5_and_toml |-> "invalid", dep5_bad_expression |-> "grey",
      covered_nul_bytes |-> "valid", covered_not_utf8 |-> "valid", covered_long_line |-> "valid", covered_bad_expression |-> "valid",
      covered_unreadable |-> "valid", covered_vanishes |-> "valid", licenseref_not_utf8 |-> "valid", license_dir_is_file |-> "grey",
-     template_bad_syntax |-> "grey", dot_license_not_utf8 |-> "valid" ]
+     template_bad_syntax |-> "grey", dot_license_not_utf8 |-> "valid",
+     repository_test |-> "grey" ]     \* inputs of the repository's own tests: only the exit-status discipline is demanded
 
 (* the requirement on one observed run *)
 Outcome(class, exit, crashed, namesFile) ==
